@@ -219,6 +219,12 @@ class Normalizer:
         return mk(*a)
 
     def _add(self, x, y):
+        if x is y and not (tag(x) == "const"):
+            # x + x is 2 * x, exactly and for every x (NaN, infinities, both zeros): `h + h` for `2.0 * h`
+            sx, mx = split_sign(x)
+            p, q = self._sorted2(mx, mk("const", "f64", 0x4000000000000000))
+            r = mk("f", "mul", p, q)
+            return neg(r) if sx else r
         if self.mode == "Z":
             sx, mx = split_sign(x); sy, my = split_sign(y)
             if digest(mx) <= digest(my):
